@@ -12,6 +12,7 @@ import (
 	"os"
 	"slices"
 	"strings"
+	"sync"
 	"sync/atomic"
 	"testing"
 	"time"
@@ -71,6 +72,9 @@ func TestC10(t *testing.T) {
 	os.MkdirAll(scratch, 0o755)
 	if run.Shard == 0 {
 		longLog(run, scratch)
+	}
+	if run.Shard == 1%run.Shards {
+		overlappingAppends(run, scratch)
 	}
 	if be, err := faultsql.GenuineBusy(scratch); err == nil {
 		busyErr = be
@@ -230,6 +234,76 @@ func longLog(run *vk.Run, scratch string) {
 		}
 		st.Close()
 		st.Remove()
+	}
+}
+
+// overlappingAppends: several goroutines append to one store at the same time (the calls overlap;
+// nothing else is asserted about their order): every Append is answered with an offset of its own,
+// and that offset is the one the log holds that very event under.
+func overlappingAppends(run *vk.Run, scratch string) {
+	ctx := context.Background()
+	for _, kind := range []string{"memory", "sqlite-mem", "sqlite-file", "sqlite-batch2"} {
+		for round := 0; round < 3; round++ {
+			st, err := stores.Open(kind, scratch)
+			if err != nil {
+				panic(err)
+			}
+			const G, per = 8, 25
+			got := make([][]ebu.Offset, G)
+			var wg sync.WaitGroup
+			start := make(chan struct{})
+			var failed atomic.Value
+			for g := 0; g < G; g++ {
+				wg.Add(1)
+				go func(g int) {
+					defer wg.Done()
+					<-start
+					for k := 0; k < per; k++ {
+						off, err := st.Store.Append(ctx, &ebu.Event{Type: "c10.overlap", Data: json.RawMessage(fmt.Sprintf(`{"g":%d,"k":%d}`, g, k)), Timestamp: time.Unix(1, 0)})
+						if err != nil {
+							failed.Store(fmt.Sprintf("Append by goroutine %d failed: %v", g, err))
+							return
+						}
+						got[g] = append(got[g], off)
+					}
+				}(g)
+			}
+			close(start)
+			wg.Wait()
+			evs, _, rerr := st.Store.Read(ctx, ebu.OffsetOldest, 0)
+			at := map[ebu.Offset]string{}
+			for _, e := range evs {
+				at[e.Offset] = string(e.Data)
+			}
+			bad := ""
+			if f, _ := failed.Load().(string); f != "" {
+				bad = f
+			}
+			seen := map[ebu.Offset]string{}
+			for g := 0; g < G && bad == ""; g++ {
+				for k, off := range got[g] {
+					me := fmt.Sprintf(`{"g":%d,"k":%d}`, g, k)
+					if other, dup := seen[off]; dup {
+						bad = fmt.Sprintf("offset %q was returned for %s and for %s", off, other, me)
+						break
+					}
+					seen[off] = me
+					if at[off] != me {
+						bad = fmt.Sprintf("Append of %s returned offset %q, under which the log holds %s", me, off, at[off])
+						break
+					}
+				}
+			}
+			if bad == "" && (rerr != nil || len(evs) != G*per) {
+				bad = fmt.Sprintf("the log holds %d events after %d appends (err %v)", len(evs), G*per, rerr)
+			}
+			run.Case(fmt.Sprintf("overlapping-appends|%s|%d", kind, round), true)
+			if bad != "" {
+				run.Violation(strings.SplitN(kind, "-", 2)[0]+":append-offset-not-the-events-own", fmt.Sprintf("%s store, %d goroutines appending %d events each at the same time: %s", kind, G, per, bad), map[string]any{"store": kind})
+			}
+			st.Close()
+			st.Remove()
+		}
 	}
 }
 
